@@ -153,4 +153,202 @@ def readableSpec (fuel : Nat) (n : NodeId) (s : S F) : Option Bool := some (read
 def writableSpec (fuel : Nat) (n : NodeId) (s : S F) : Option Bool := some (writableB cx (fuel + 1) n s)
 
 end
+
+/-! ## C03: reference value semantics (clause per rule)
+
+Pure partial functions over the observable state (value store + device image): no
+access log, no error classes, no interface records — `none` means "the standard assigns
+no value" (or the node kind is outside this reference: converters and swiss knives).
+`d` is the well-foundedness witness: the depth of node references followed (any `d` above
+the rank of the node is enough on an acyclic graph). -/
+
+section
+variable {F E : Type} (cx : Ctx F E)
+
+def resOpt {α : Type} : Res Err α → Option α
+  | .ok a => some a
+  | _ => none
+
+/-- R1. A value-store slot read as integer / float / string. -/
+def slotInt (s : S F) (id : SlotId) : Option Int :=
+  match s.vs[id]? with
+  | some (.int i) => some i
+  | some (.float f) => some (cx.ops.f2i f)
+  | _ => none
+def slotFloat (s : S F) (id : SlotId) : Option F :=
+  match s.vs[id]? with
+  | some (.int i) => some (cx.ops.i2f i)
+  | some (.float f) => some f
+  | _ => none
+def slotStr (s : S F) (id : SlotId) : Option Bytes :=
+  match s.vs[id]? with
+  | some (.str b) => some b
+  | _ => none
+
+/-- the value semantics of referenced nodes, one level down -/
+structure ValSem (F : Type) where
+  int : NodeId → S F → Option Int
+  float : NodeId → S F → Option F
+  str : NodeId → S F → Option Bytes
+  enum : NodeId → S F → Option Int
+
+def ValSem.none (F : Type) : ValSem F := ⟨fun _ _ => .none, fun _ _ => .none, fun _ _ => .none, fun _ _ => .none⟩
+
+/-- R2. A referenced node read as integer: integer kind as is, float kind truncated
+(`as i64`), enumeration its integer value. -/
+def numInt (prev : ValSem F) (p : NodeId) (s : S F) : Option Int :=
+  if isIntKind cx p then prev.int p s
+  else if isFloatKind cx p then (prev.float p s).map cx.ops.f2i
+  else if isEnumKind cx p then prev.enum p s
+  else .none
+
+/-- R2'. … read as float. -/
+def numFloat (prev : ValSem F) (p : NodeId) (s : S F) : Option F :=
+  if isIntKind cx p then (prev.int p s).map cx.ops.i2f
+  else if isFloatKind cx p then prev.float p s
+  else if isEnumKind cx p then (prev.enum p s).map cx.ops.i2f
+  else .none
+
+def sonInt (prev : ValSem F) (v : ImmOrPNode SlotId) (s : S F) : Option Int :=
+  match v with
+  | .imm id => slotInt cx s id
+  | .pnode p => numInt cx prev p s
+
+def sonFloat (prev : ValSem F) (v : ImmOrPNode SlotId) (s : S F) : Option F :=
+  match v with
+  | .imm id => slotFloat cx s id
+  | .pnode p => numFloat cx prev p s
+
+def immInt (prev : ValSem F) (v : ImmOrPNode Int) (s : S F) : Option Int :=
+  match v with
+  | .imm a => some a
+  | .pnode p => numInt cx prev p s
+
+/-- R3. `<Value>` / `<pValue>` / `<pIndex>`: the value comes from the slot, from pValue
+(never from a pValueCopy), or from the indexed value selected by the selector. -/
+def vkInt (prev : ValSem F) (vk : ValueKind) (s : S F) : Option Int :=
+  match vk with
+  | .value id => slotInt cx s id
+  | .pValue p _ => numInt cx prev p s
+  | .pIndex sel entries dflt =>
+    if isIntKind cx sel then (prev.int sel s).bind fun i => sonInt cx prev (pIndexSelect entries dflt i) s
+    else .none
+
+def vkFloat (prev : ValSem F) (vk : ValueKind) (s : S F) : Option F :=
+  match vk with
+  | .value id => slotFloat cx s id
+  | .pValue p _ => numFloat cx prev p s
+  | .pIndex sel entries dflt =>
+    if isIntKind cx sel then (prev.int sel s).bind fun i => sonFloat cx prev (pIndexSelect entries dflt i) s
+    else .none
+
+/-- R4. One address element. -/
+def addrElem (prev : ValSem F) (k : AddressKind) (s : S F) : Option Int :=
+  match k with
+  | .address a => immInt cx prev a s
+  | .intSwissKnife n => numInt cx prev n s
+  | .pIndex sel offset =>
+    (numInt cx prev sel s).bind fun b =>
+      match offset with
+      | .none => some b
+      | some o => (immInt cx prev o s).bind fun off => resOpt (mulI64 cx.profile b off)
+
+/-- R5. The effective address is the sum of the address elements (in `i64`). -/
+def addrSum (prev : ValSem F) (ks : List AddressKind) (acc : Int) (s : S F) : Option Int :=
+  match ks with
+  | [] => some acc
+  | k :: ks => (addrElem cx prev k s).bind fun x =>
+      (resOpt (addI64 cx.profile acc x)).bind fun acc' => addrSum prev ks acc' s
+
+/-- R6. The bytes of a register: `length` bytes (Length / pLength) at the effective
+address, read through a plain (non-chunk) port from the device image. -/
+def regBytes (prev : ValSem F) (rb : RegBase) (s : S F) : Option Bytes :=
+  (immInt cx prev rb.length s).bind fun l =>
+  (addrSum cx prev rb.addrs 0 s).bind fun a =>
+    if 0 ≤ l then
+      match cx.graph rb.port with
+      | some (.port _ false) => s.dev.read a l.toNat
+      | _ => .none
+    else .none
+
+/-- the reference value semantics one level up -/
+def valStep (prev : ValSem F) : ValSem F where
+  int n s :=
+    match cx.graph n with
+    | some (.integer _ vk _ _ _) => vkInt cx prev vk s                       -- R3
+    | some (.intReg rb sign endian) =>                                          -- R7 IntReg
+      (regBytes cx prev rb s).bind fun bs => resOpt (cx.ops.intFromSlice bs endian sign)
+    | some (.maskedIntReg rb mask sign endian) =>                               -- R8 MaskedIntReg
+      (regBytes cx prev rb s).bind fun bs =>
+      (resOpt (cx.ops.intFromSlice bs endian sign)).bind fun x =>
+      (immInt cx prev rb.length s).bind fun l =>
+        resOpt (cx.ops.applyMask cx.profile mask x (asUsize l) endian sign)
+    | _ => .none
+  float n s :=
+    match cx.graph n with
+    | some (.float _ vk _ _ _) => vkFloat cx prev vk s                        -- R3
+    | some (.floatReg rb endian) =>                                             -- R9 FloatReg
+      (regBytes cx prev rb s).bind fun bs => resOpt (cx.ops.floatFromSlice bs endian)
+    | _ => .none
+  str n s :=
+    match cx.graph n with
+    | some (.string _ (.imm id)) => slotStr s id                               -- R10 String
+    | some (.string _ (.pnode p)) => if isStrKind cx p then prev.str p s else .none
+    | some (.stringReg rb) =>                                                   -- R11 StringReg
+      (regBytes cx prev rb s).map fun bs => cx.ops.strDecode (bs.takeWhile (· != 0))
+    | _ => .none
+  enum n s :=
+    match cx.graph n with
+    | some (.enumeration _ _ value) => sonInt cx prev value s                  -- R12 Enumeration
+    | _ => .none
+
+/-- the reference value semantics at reference depth `d` -/
+def valSem : Nat → ValSem F
+  | 0 => ValSem.none F
+  | d + 1 => valStep cx (valSem d)
+
+/-- R13. Boolean: On / Off. -/
+def specBool (d : Nat) (n : NodeId) (s : S F) : Option Bool :=
+  match cx.graph n with
+  | some (.boolean _ value onV offV) =>
+    (sonInt cx (valSem cx d) value s).bind fun v =>
+      if v == onV then some true else if v == offV then some false else .none
+  | _ => .none
+
+/-- R14. Enumeration: the current entry is the first declared entry with the current value. -/
+def specCurrentEntry (d : Nat) (n : NodeId) (s : S F) : Option NodeId :=
+  match cx.graph n with
+  | some (.enumeration _ entries value) =>
+    (sonInt cx (valSem cx d) value s).bind fun v => (resOpt (findEntryByValue cx entries v)).join
+  | _ => .none
+
+/-- R15. Raw register: address, length, content. -/
+def specRegAddress (d : Nat) (n : NodeId) (s : S F) : Option Int :=
+  match cx.graph n with
+  | some nd => match nd.regBase? with
+    | some rb => addrSum cx (valSem cx d) rb.addrs 0 s
+    | .none => .none
+  | .none => .none
+def specRegLength (d : Nat) (n : NodeId) (s : S F) : Option Int :=
+  match cx.graph n with
+  | some nd => match nd.regBase? with
+    | some rb => immInt cx (valSem cx d) rb.length s
+    | .none => .none
+  | .none => .none
+def specRegRead (d : Nat) (n : NodeId) (bufLen : Nat) (s : S F) : Option Bytes :=
+  match cx.graph n with
+  | some nd => match nd.regBase? with
+    | some rb => (regBytes cx (valSem cx d) rb s).bind fun bs =>
+        if bs.length = bufLen then some bs else .none
+    | .none => .none
+  | .none => .none
+
+/-- graphs inside the scope of this reference semantics: no converter / swiss-knife nodes -/
+def NoFormulaNodes : Prop :=
+  ∀ n, match cx.graph n with
+    | some (.converter ..) | some (.intConverter ..) | some (.swissKnife ..)
+    | some (.intSwissKnife ..) => False
+    | _ => True
+
+end
 end CamVerif.GenApiSem
